@@ -430,6 +430,9 @@ pub fn gen_proxy(seed: u64, prop: &str, tier: &str) -> Value {
     if prop == "C07" {
         return gen_c07(seed, &mut r, procs, tier);
     }
+    if prop == "C15" {
+        return gen_c15(seed, &mut r, procs, tier);
+    }
     if prop == "C11" {
         return gen_c11(seed, &mut r, procs, tier);
     }
@@ -596,6 +599,12 @@ fn gen_c07(seed: u64, r: &mut Rng, procs: Value, tier: &str) -> Value {
         let nconn = 1 + r.below(nports.min(6));
         let mut conns = Vec::new();
         let same_instant = r.chance(1, 2);
+        // the metadata endpoint may be unreachable for a while: the proxy's upstream connect is refused
+        if r.chance(1, 4) {
+            for _ in 0..1 + r.below(3) {
+                steps.push(json!({"t": "net_fault", "dst": *r.pick(&["imds", "wire"]), "agent": true, "kind": {"f": "refuse"}}));
+            }
+        }
         for _ in 0..nconn {
             let p = r.below(nprocs);
             let dst = *r.pick(&["imds", "imds", "wire", "direct", "direct", "ga"]);
@@ -627,7 +636,7 @@ fn gen_c07(seed: u64, r: &mut Rng, procs: Value, tier: &str) -> Value {
     knobs["net.connect_lat_max_ms"] = json!(*r.pick(&[0u64, 0, 1]));
     json!({
         "scenario": "proxy:C07", "seed": seed, "family": "proxy", "prop": "C07", "ports": [40000, nports],
-        "knobs": knobs, "procs": procs, "users": users_json(), "steps": steps, "oracles": ["C07", "C01", "C05"],
+        "knobs": knobs, "procs": procs, "users": users_json(), "steps": steps, "oracles": ["C07"],
         "config": {"pollKeyStatusIntervalInSeconds": 15}, "settle_ms": 3000, "faulty": false
     })
 }
@@ -707,5 +716,88 @@ fn gen_c11(seed: u64, r: &mut Rng, procs: Value, tier: &str) -> Value {
         "scenario": "proxy:C11", "seed": seed, "family": "proxy", "prop": "C11",
         "knobs": knobs, "procs": procs, "users": users_json(), "steps": steps, "oracles": ["C11", "C01"],
         "config": {"pollKeyStatusIntervalInSeconds": 1 + r.below(5)}, "settle_ms": 1000, "faulty": false
+    })
+}
+
+/// C15: body lengths around both limits, declared by Content-Length or only discovered while reading a chunked
+/// body, on exempt and non-exempt method/URL combinations (with case variants of the exempt URLs), all on
+/// attributed, authorised connections so that the limit is the only reason to refuse.
+fn gen_c15(seed: u64, r: &mut Rng, procs: Value, tier: &str) -> Value {
+    const LOW: u64 = 100 * 1024;
+    const LARGE: u64 = 100 * 1024 * 1024;
+    let mut steps = Vec::new();
+    steps.push(json!({"t": "doc", "doc": if r.chance(1, 2) { doc_v1("wireserver") } else { doc_v1("disabled") }}));
+    steps.push(json!({"t": "wait_polls", "n": 2, "max_s": 200}));
+    let mut tokn = 0u64;
+    let rounds = 1 + r.below(3);
+    let mut any_huge = false;
+    for _ in 0..rounds {
+        let mut conns = Vec::new();
+        for _ in 0..1 + r.below(3) {
+            let dst = *r.pick(&["wire", "ga", "imds", "other_redirected"]);
+            let mut reqs = Vec::new();
+            for _ in 0..1 + r.below(3) {
+                tokn += 1;
+                // target / method: exempt combinations in every letter case, near misses, ordinary targets
+                let (method, target) = match r.below(8) {
+                    0 => ("PUT", flip_case(r, "/vmAgentLog")),
+                    1 => ("POST", flip_case(r, "/machine/?comp=telemetrydata")),
+                    2 => ("POST", flip_case(r, "/vmAgentLog")),                // wrong method for the exemption
+                    3 => ("PUT", "/machine/?comp=telemetrydata".to_string()), // wrong method for the exemption
+                    4 => ("PUT", "/vmAgentLog?x=1".to_string()),              // not the exempt URL
+                    5 => ("POST", "/machine?comp=telemetrydata".to_string()), // not the exempt URL
+                    _ => (*r.pick(&["POST", "PUT", "PATCH"]), r.pick(&["/metadata/instance", "/machine/374188df/x?comp=config", "/upload"]).to_string()),
+                };
+                let exempt = (method == "PUT" && target.to_lowercase() == "/vmagentlog") || (method == "POST" && target.to_lowercase() == "/machine/?comp=telemetrydata");
+                let len: u64 = match r.below(9) {
+                    0 => 0,
+                    1 => 1,
+                    2 => LOW - 1,
+                    3 => LOW,
+                    4 => LOW + 1,
+                    5 => LOW + 4096,
+                    6 => 2 * LOW,
+                    7 => LOW - r.below(3000),
+                    _ => LOW + 1 + r.below(50_000),
+                };
+                let chunked = r.chance(1, 2);
+                let mut q = json!({"method": method, "target": target, "headers": [["Host", host_name_of(dst)], ["x-ms-version", "2012-11-30"]], "tok": format!("t{}", tokn), "body": {"len": len, "seed": r.next() >> 8, "ascii": r.chance(1, 2)}});
+                if chunked {
+                    q["chunks"] = json!((0..1 + r.below(4)).map(|_| match r.below(4) { 0 => 1 + r.below(16), 1 => 1 + r.below(4096), _ => 4096 + r.below(61_000) }).collect::<Vec<_>>());
+                }
+                // the 100 MiB class: in the thorough tier a few runs move the whole body
+                if exempt && tier == "thorough" && !any_huge && r.chance(1, 12) {
+                    let big = *r.pick(&[LARGE, LARGE + 1, LARGE - 1]);
+                    q["body"]["len"] = json!(big);
+                    q["chunks"] = if r.chance(1, 2) { json!([65536]) } else { Value::Null };
+                    any_huge = true;
+                }
+                reqs.push(q);
+                let over = len > if exempt { LARGE } else { LOW };
+                if over {
+                    break; // the proxy closes the connection after refusing: nothing may follow on it
+                }
+            }
+            conns.push(json!({"proc": 0, "dst": dst, "start_ms": r.below(10), "pipeline": false, "reqs": reqs}));
+        }
+        // declared-length requests of the 100 MiB class: the proxy must refuse on the header alone
+        if r.chance(1, 3) {
+            tokn += 1;
+            let (method, target) = if r.chance(1, 2) { ("PUT", flip_case(r, "/vmAgentLog")) } else { ("POST", flip_case(r, "/machine/?comp=telemetrydata")) };
+            conns.push(json!({"proc": 0, "dst": "wire", "start_ms": r.below(10), "pipeline": false, "close": "normal",
+                "reqs": [{"method": method, "target": target, "headers": [["Host", "168.63.129.16"], ["Content-Length", (LARGE + 1 + r.below(1000)).to_string()], ["x-ms-version", "2012-11-30"]], "tok": format!("t{}", tokn), "declared_only": true}]}));
+        }
+        steps.push(json!({"t": "clients", "conns": conns, "max_s": 3000}));
+    }
+    let mut knobs = gen_knobs(r, false);
+    if any_huge {
+        knobs["net.frag_ppm"] = json!(0);
+        knobs["net.short_write_ppm"] = json!(0);
+        knobs["net.short_read_ppm"] = json!(0);
+    }
+    json!({
+        "scenario": "proxy:C15", "seed": seed, "family": "proxy", "prop": "C15",
+        "knobs": knobs, "procs": procs, "users": users_json(), "steps": steps, "oracles": ["C15", "C14"],
+        "config": {"pollKeyStatusIntervalInSeconds": 15}, "settle_ms": 3000, "faulty": false
     })
 }
